@@ -43,5 +43,10 @@ def run(tier):
         else:
             rest.append(n)
     rep.notes = rest
+    if any(n.startswith('cut') for n in rest):
+        # vh.h stops a shard after 20000 ASan reports.  Enumeration order of h_c18_text is: parsers, IPv4 formatting,
+        # UNIX formatting, IPv6 formatting - so a cut caused by an IPv6 formatting defect only loses IPv6 formatting cases.
+        rep.extra['cut_scope'] = ('text harness order: parsers, IPv4, UNIX, IPv6 formatting; shards stopped at the ASan report cap '
+                                  'inside the section named in per_target with run < cases')
     rep.extra['observed_not_judged'] = sums
     rep.finish(core.make_replayer(lambda cfg: bins[cfg or 'text'], tier))
